@@ -147,6 +147,39 @@ def run(ctx):
                     ctx.counterexample('glob.escape(%r, unix=False) = %r also matches %r under %s' % (s, e, n, corr.flag_names(fv)),
                                        {'string': s, 'escaped': e, 'other': n, 'flags': corr.flag_names(fv)})
                     break
+    # device-namespace prefixes (`//?/`, `//./`, GLOBAL, UNC in any case): metacharacters inside the drive part are literal
+    # for is_magic, for escape and for the matcher alike
+    import re as _re
+    devs = ['//?/GLOBAL/GLOBAL/x*y/f', '//?/GLOBAL/UNC/ser*/sh?re/f', '//?/GLOBAL/GLOBAL/UNC/srv/sh[ab]re/f', '//?/UNC/s*v/share/f',
+            '//./GLOBAL/c:/a', '//?/GLOBAL/dev*1/f', '//?/global/global/global/c:/x', '//?/Volume{ab}/f', '//?/UNC/srv/sh{a,b}re/f',
+            '//srv/sh*re/f', '//?/unc/Srv/Sh?re/f', '//./UNC/a*/b/f', '//?/GLOBAL/global/unc/h/s*/f', '//?/c:/f', '//?/GLOBAL/x?y', 'c:/f']
+    for s in devs:
+        for extra in (0, Gm.CASE, Gm.BRACE | Gm.SPLIT, Gm.EXTGLOB | Gm.CASE):
+            fv = Gm.FORCEWIN | extra
+            evals += 1
+            im = Gm.is_magic(s, flags=fv)
+            e = Gm.escape(s, unix=False)
+            variants = {s.replace('*', 'AA'), s.replace('?', 'z'), _re.sub(r'\[(.)[^\]]*\]', r'\1', s), _re.sub(r'\{(.)[^}]*\}', r'\1', s), s.replace('*', '')}
+            variants.discard(s)
+            if not Gm.globmatch(s, e, flags=fv):
+                ctx.counterexample('glob.escape(%r, unix=False) = %r does not match the path under %s' % (s, e, corr.flag_names(fv)), {'string': s, 'escaped': e})
+            for n in sorted(variants):
+                evals += 1
+                if Gm.globmatch(n, e, flags=fv):
+                    ctx.counterexample('glob.escape(%r, unix=False) = %r also matches %r under %s' % (s, e, n, corr.flag_names(fv)),
+                                       {'string': s, 'escaped': e, 'other': n, 'flags': corr.flag_names(fv)})
+                if not im and Gm.globmatch(n, s, flags=fv):
+                    ctx.counterexample('is_magic(%r, %s) is False but the pattern also matches %r' % (s, corr.flag_names(fv), n),
+                                       {'pattern': s, 'other': n, 'flags': corr.flag_names(fv)})
+            if not im and not Gm.globmatch(s, s, flags=fv):
+                ctx.counterexample('is_magic(%r, %s) is False but the pattern does not match itself' % (s, corr.flag_names(fv)), {'pattern': s})
+            # the drive part is a literal, case-insensitive prefix even under CASE (C17)
+            if not im:
+                sw = s.swapcase()[:s.rfind('/')] + s[s.rfind('/'):]
+                evals += 1
+                if not Gm.globmatch(sw, s, flags=fv):
+                    ctx.counterexample('FORCEWIN: the drive part of %r does not match its case variant %r under %s' % (s, sw, corr.flag_names(fv)),
+                                       {'pattern': s, 'name': sw, 'flags': corr.flag_names(fv)})
     ctx.counted('escape / is_magic behaviour', evals, len(nontriv), [{'string': 'a*[b]'}, {'string': '//srv/a|b/x'}])
     return ctx.finish(RULE)
 
